@@ -115,12 +115,12 @@ ENTRIES = [
 def _is_cache_slot_write(p, origin, info):
     """the one sanctioned write to a caller object: stylesheet.parse stores the converted snippets *into the cache dict itself*
     (origin config.cache, not something stored in it) by a plain subscript assignment under a constant key"""
-    if info[0] != 'emmet.stylesheet.parse':
-        return False
+    f = p.funcs.get(info[0])
+    if f is None or f.module.name != 'emmet.stylesheet' or f.cls is not None:
+        return False            # stylesheet.parse or a helper it was split into
     from .. import shape
-    f = p.funcs[info[0]]
     defs = shape.defs_of(f.node, params=f.params)
-    cfg = f.params[1] if len(f.params) > 1 else 'config'
+    cfg = 'config' if 'config' in f.params else (f.params[1] if len(f.params) > 1 else 'config')
     for n in f.body_nodes():
         if isinstance(n, ast.Assign) and len(n.targets) == 1 and isinstance(n.targets[0], ast.Subscript) and src_of(n) == info[2]:
             return isinstance(p.try_const(f, n.targets[0].slice), str) and src_of(shape.expand(n.targets[0].value, defs)) == '%s.cache' % cfg
@@ -431,6 +431,9 @@ def own_ambient(p, res):
                 if str(what) in STATELESS_EXTERN:
                     continue
             if what is None:
+                continue
+            if what == 'hash()' and f.name == '__hash__' and f.cls is not None:
+                res.ok('%s: hash() inside __hash__ (consistent with equality inside one process, never part of a result)' % f.short)
                 continue
             n += 1
             if in_lorem and str(what).startswith('random'):
